@@ -5,6 +5,8 @@ import (
 	"fmt"
 	"strings"
 
+	spooky "github.com/dgryski/go-spooky"
+
 	"verifharness/hlib"
 )
 
@@ -192,9 +194,35 @@ func (g *Gen) wildcards(z Name, o Opts) {
 	}
 }
 
+// collidingNames finds two names hNNNNN.<z> whose v1 record keys (location 0,0 + packed name)
+// have the same 32-bit CDB hash (the writer's and reader's hash of keys below 96 bytes): both
+// sit in one probe sequence with equal stored hashes, so the reader must compare the keys.
+// A deterministic birthday search, about 10^5 hashes.
+func collidingNames(z Name) (Name, Name, bool) {
+	seen := map[uint32]int{}
+	for i := 0; i < 400000; i++ {
+		n := z.Child(fmt.Sprintf("h%d", i))
+		h := spooky.Hash32(append([]byte{0, 0}, n.Pack()...))
+		if j, ok := seen[h]; ok {
+			return z.Child(fmt.Sprintf("h%d", j)), n, true
+		}
+		seen[h] = i
+	}
+	return nil, nil, false
+}
+
 // zone fills one authoritative zone.
 func (g *Gen) zone(z Name, o Opts, depth int) {
 	g.apex(z, o)
+	if depth == 0 && len(z.Pack()) < 60 && g.R.Chance(1, 4) {
+		if a, b, ok := collidingNames(z); ok {
+			g.Addr(a, false, g.randIP(), nil, 1)
+			g.TXT(b, false, []byte("same key hash as "+string(a[0])), nil)
+			if g.R.Chance(1, 2) {
+				g.Addr(b, false, g.randIP(), g.loc(o.Located), 1)
+			}
+		}
+	}
 	n := 1 + g.R.Intn(3)
 	for i := 0; i < n; i++ {
 		name := z.Child(g.someLabel())
